@@ -85,6 +85,13 @@ def run_case(case):
         case["wait"]
     A = list(range(case["na"]))
     Bv = ["p", "q"][:case["nb"]]
+    # the conflicting data already stored: the first label, or (swept high to
+    # low / in no particular order) several of them and one from outside
+    pre_a = A[:1]
+    if case.get("pre_order") == "desc":
+        pre_a = [A[-1] + 5] + A[::-1]
+    elif case.get("pre_order") == "mixed":
+        pre_a = [A[-1], A[-1] + 7, A[0]] if len(A) > 1 else [A[0] + 3, A[0]]
     internal = failure == "missing_dims"
     spec = {"vars": [["out", ["t"] if internal else []], ["E", []]],
             "sizes": {"t": 2}, "ret": "tuple", "log": None}
@@ -111,7 +118,7 @@ def run_case(case):
                 if failure == "conflict":
                     r_old = x.Runner(labelled.make_fn(dict(spec, epoch=1)),
                                      names, **good)
-                    pre_ds = r_old.run_combos({"a": A[:1], "b": Bv},
+                    pre_ds = r_old.run_combos({"a": pre_a, "b": Bv},
                                               verbosity=0)
                 farmer = x.Harvester(runner, data_name=None, full_ds=pre_ds)
             elif farmer_kind == "harvester":
@@ -124,7 +131,7 @@ def run_case(case):
             spec_old = dict(spec, epoch=1)
             r_old = x.Runner(labelled.make_fn(spec_old), names, **good)
             x.Harvester(r_old, data_name=data_name).harvest_combos(
-                {"a": A[:1], "b": Bv}, verbosity=0)
+                {"a": pre_a, "b": Bv}, verbosity=0)
         combos = {"a": A, "b": Bv}
         settings = list(itertools.product(A, Bv))
         bkw = {case["batch"][0]: case["batch"][1]} if case.get("batch") else {}
@@ -207,9 +214,12 @@ def run_case(case):
                     # the file (the in-memory dataset of a harvester without
                     # a data name) must already hold the NEW data, by label
                     try:
+                        at_rm = farmer._full_ds if mem_only else \
+                            x.load_ds(data_name)
+                        if failure == "conflict":
+                            at_rm = at_rm.sel(a=A)
                         labelled.check_dataset(
-                            farmer._full_ds if mem_only else
-                            x.load_ds(data_name), spec=spec,
+                            at_rm, spec=spec,
                             fn_args=["a", "b"], coords={"a": A, "b": Bv},
                             requested=hook_requested[0], fn_kwargs_extra={},
                             constants={}, resources={}, attrs={},
@@ -315,6 +325,10 @@ def run_case(case):
                 with under_test("load harvester file"):
                     on_disk = farmer.full_ds if mem_only else \
                         x.load_ds(data_name)
+                    if failure == "conflict":
+                        # (labels stored before and not swept by the crop
+                        # stay, of course; the crop's own are looked at)
+                        on_disk = on_disk.sel(a=A)
                 labelled.check_dataset(
                     on_disk, spec=spec, fn_args=["a", "b"],
                     coords={"a": A, "b": Bv}, requested=requested(),
@@ -380,7 +394,9 @@ def enumerate_cases(tier, seed):
                                     "victim": rng.randint(0, 7),
                                     "shuffle": rng.choice([False, True]),
                                     "n": rng.randint(2, 6),
-                                    "np_seed": rng.randint(0, 2**31)}
+                                    "np_seed": rng.randint(0, 2**31),
+                                    "pre_order": rng.choice(
+                                        [None, "desc", "mixed"])}
                             bt = rng.choice(["default", "batchsize",
                                              "num_batches"])
                             tot = case["n"] if farmer == "sampler" else N
